@@ -19,8 +19,13 @@ func tupleOrOne(vs ...Value) Value {
 	return &TupleV{V: vs}
 }
 
+// freshErr is an arbitrary error answer of the environment (nil or any error
+// value the environment can construct: never an unexported sentinel of the
+// repository's packages).
 func (ex *Executor) freshErr(st *State, hint string) *Term {
-	return ex.Fresh(hint+"_err", SInt)
+	e := ex.Fresh(hint+"_err", SInt)
+	st.Fact(Or(isNilT(e), App("env_error", SBool, e)))
+	return e
 }
 
 func (ex *Executor) freshRef(st *State, hint string) *Term {
@@ -94,6 +99,13 @@ func storeEffect(kind string, nres int, post func(ex *Executor, st *State, c *ca
 	return func(ex *Executor, st *State, c *callCtx) []callResult {
 		r := ex.havocResults(st, c.Sig, strings.ToLower(strings.ReplaceAll(kind, ".", "_")))
 		rs := resList(r)
+		if n := c.Sig.Results().Len(); n > 0 && len(rs) == n {
+			if types.Identical(c.Sig.Results().At(n-1).Type(), types.Universe.Lookup("error").Type()) {
+				if et, ok := rs[n-1].(*Term); ok {
+					st.Fact(Or(isNilT(et), App("env_error", SBool, et)))
+				}
+			}
+		}
 		args := c.Args
 		if len(args) > 0 {
 			if _, ok := args[0].(*CtxV); ok {
@@ -338,6 +350,22 @@ func init() {
 		return one(st, nil)
 	})
 
+	regSummary("(*"+abPkg+".Authboss).Localizef", "Authboss.Localizef(ctx,key,args): deterministic text loctext(localizer,key.ID,key.Default,args); texts of different keys differ (loc_key(text)==key.ID: assumption on the configured Localizer and the distinct default strings)",
+		func(ex *Executor, st *State, c *callCtx) []callResult {
+			a := ex.asTerm(st, c.Args[0])
+			var id, def *Term
+			if k, ok := c.Args[2].(*StructV); ok && len(k.F) == 2 {
+				id, _ = k.F[0].(*Term)
+				def, _ = k.F[1].(*Term)
+			}
+			if id == nil || def == nil {
+				st.Note("Localizef with non-struct key")
+				return one(st, ex.Fresh("loctext", SStr))
+			}
+			txt := App("loctext", SStr, a, id, def, ex.argsDigest(st, c.Args[3]))
+			st.Fact(Eq(App("loc_key", SStr, txt), id))
+			return one(st, txt)
+		})
 	regSummary(abPkg+".ErrorMap", "ErrorMap(errs): pure data assembly for rendering (opaque function of errs)", func(ex *Executor, st *State, c *callCtx) []callResult {
 		return one(st, App("errormap", SInt, ex.asTerm(st, c.Args[0])))
 	})
